@@ -50,7 +50,10 @@ Definition property_ok (c : scase) : bool :=
   && all_released (c_tr c) (c_res c)
   && registered_woken (c_tr c)
   && result_shape_ok (c_tr c) (c_res c)
-  && single_worker_prefix 0 0 (c_tr c)
+  (* removals are logged after remove_sync returns, not under the bucket lock: on a multi-thread
+     runtime a spawn that follows a removal can be logged before it, so only the totals are
+     compared there; on the current-thread runtime every prefix is checked *)
+  && (if c_strict c then single_worker_prefix 0 0 (c_tr c) else single_worker_ok (c_tr c))
   && Nat.eqb (c_fetches c) (count_l is_begin (c_tr c))
   && (negb (c_dropped c) || after_drop_ok (c_tr c) (c_fin c)).
 
